@@ -3,24 +3,51 @@
    Model: Format/NaFmt.v (mini-fmt, sanitising), Format/NaModel.v (scan, contains_named,
    format_and_split, cache, process), Format/NaJson.v (json_line, JSON recogniser).
    libfmt is the Section oracle [apply_spec] (what one replacement field renders to) — it appears
-   as a universally quantified function in the statements below. *)
+   as a universally quantified function in the statements below.
+   The model has two variant flags: [skip] (NaModel.scan_hole: true = the scanner as pinned, which
+   steps over a "}}" directly after a placeholder, D11; false = the first '}' closes the placeholder)
+   and [esc] (NaJson.json_sink_line: false = the sink as pinned, keys and values appended raw,
+   D16; true = every newline of a key or value written as backslash n).  The variant that stands for
+   the code is read from the source on every run: TieC19.src_scan_skip, TieC19.src_json_esc (T-src,
+   closed by vm_compute).  Theorems about "the code" are stated for these two; the refutations are
+   statements about the pinned variants. *)
 From Coq Require Import String.
 From Coq Require Import List NArith Arith Bool.
 From Quill Require Import Format.NaFmt Format.NaModel Format.NaJson Format.NaProofs Format.NaJsonProofs Format.NaExamples.
+From Quill Require Import TieC19.
 Import ListNotations.
 
-(* For every well-formed template in which no escaped "}}" directly follows a placeholder, the
-   backend's scanner returns the template with the names removed and the (name, spec) list. *)
+(* For every well-formed template the backend's scanner returns the template with the names removed
+   and the (name, spec) list. *)
 Theorem C19_scan_print : forall r : tpl,
-  wf_tpl r = true -> ok_adj r = true -> scan (print r) = (positional r, holes r).
-Proof. exact scan_print. Qed.
+  wf_tpl r = true -> scan src_scan_skip (print r) = (positional r, holes r).
+Proof. exact scan_print_src. Qed.
 Print Assumptions C19_scan_print.
+
+(* the T-src facts behind src_scan_skip / src_json_esc *)
+Theorem C19_src_variant :
+  src_scan_skip = false /\ src_json_esc = true /\
+  QuillGen.SrcFacts.sk_c19_scan_text = exp_c19_scan_text /\
+  QuillGen.SrcFacts.sk_c19_json_generate_json_message = exp_c19_json_generate_json_message /\
+  QuillGen.SrcFacts.sk_c19_json_append_escaping_newlines_text = exp_c19_json_append_escaping_newlines_text.
+Proof.
+  exact (conj src_scan_skip_false (conj src_json_esc_true
+        (conj (proj2 (proj2 (proj2 (proj2 (proj2 c19_skeletons_ok)))))
+        (conj (proj1 (proj2 c19_skeletons_ok)) (proj1 (proj2 (proj2 (proj2 c19_skeletons_ok)))))))).
+Qed.
+Print Assumptions C19_src_variant.
+
+(* the scanner as pinned (skip = true) did so only when no escaped "}}" directly follows a placeholder *)
+Theorem C19_scan_print_pinned_partial : forall r : tpl,
+  wf_tpl r = true -> ok_adj r = true -> scan true (print r) = (positional r, holes r).
+Proof. exact scan_print_pinned. Qed.
+Print Assumptions C19_scan_print_pinned_partial.
 
 (* the explicit fuel of the two re-scanning loops of the model (length + 1) is never exhausted, on
    any byte string: more fuel gives the same result *)
-Theorem C19_scan_fuel : forall (s : str) (f : nat) (st : scan_st),
+Theorem C19_scan_fuel : forall (skip : bool) (s : str) (f : nat) (st : scan_st),
   length s < f ->
-  scan_loop f s (find_from LB s 0) st = scan_loop (S (length s)) s (find_from LB s 0) st.
+  scan_loop skip f s (find_from LB s 0) st = scan_loop skip (S (length s)) s (find_from LB s 0) st.
 Proof. exact scan_fuel_irrelevant. Qed.
 Print Assumptions C19_scan_fuel.
 
@@ -29,14 +56,14 @@ Theorem C19_contains_fuel : forall (f1 f2 : nat) (s : str) (found : bool),
 Proof. exact contains_fuel_irrelevant. Qed.
 Print Assumptions C19_contains_fuel.
 
-(* D11: without that premise it is false — "braces {{{name}}} end" with 7 *)
+(* D11 (the pinned scanner, skip = true): without that premise it is false — "braces {{{name}}} end" with 7 *)
 Theorem C19_scan_adj_refuted :
   wf_tpl d11_tpl = true /\ ok_adj d11_tpl = false /\
   print d11_tpl = B "braces {{{name}}} end" /\
   (positional d11_tpl, holes d11_tpl) = (B "braces {{{}}} end", [(B "name", [])]) /\
-  scan (print d11_tpl) = (B "braces {{{} end", [(B "name}}", [])]) /\
-  scan (print d11_tpl) <> (positional d11_tpl, holes d11_tpl) /\
-  snd (process N dec_oracle no_strings [] (print d11_tpl) [7%N])
+  scan true (print d11_tpl) = (B "braces {{{} end", [(B "name}}", [])]) /\
+  scan true (print d11_tpl) <> (positional d11_tpl, holes d11_tpl) /\
+  snd (process N dec_oracle no_strings true [] (print d11_tpl) [7%N])
   = {| r_text := Some (B "braces {7 end"); r_named := Some [(B "name}}", B "7")] |} /\
   render N dec_oracle d11_tpl [7%N] = Some (B "braces {7} end").
 Proof. exact scan_adj_refuted. Qed.
@@ -48,12 +75,12 @@ Print Assumptions C19_scan_adj_refuted.
    state of the template cache. *)
 Theorem C19_text : forall (arg : Type) (apply_spec : str -> arg -> option str) (is_string : arg -> bool)
     (c : cache) (r : tpl) (args : list arg),
-  wf_tpl r = true -> ok_adj r = true -> first_hole_named r = true -> has_hole r = true -> cache_ok c ->
-  r_text (snd (process arg apply_spec is_string c (print r) args))
+  wf_tpl r = true -> first_hole_named r = true -> has_hole r = true -> cache_ok src_scan_skip c ->
+  r_text (snd (process arg apply_spec is_string src_scan_skip c (print r) args))
   = sink_text arg apply_spec is_string (positional r) args
   /\ sink_text arg apply_spec is_string (positional r) args
      = option_map (fun x => strip_nl (sanitize_if (has_string arg is_string args) x)) (render arg apply_spec r args).
-Proof. exact text_clause. Qed.
+Proof. exact text_clause_src. Qed.
 Print Assumptions C19_text.
 
 (* mini-fmt of the positional string is the structural rendering, for every template and arguments *)
@@ -67,27 +94,27 @@ Print Assumptions C19_text_positional.
    renders and no rendering holds the three separator bytes. *)
 Theorem C19_pairs : forall (arg : Type) (apply_spec : str -> arg -> option str) (is_string : arg -> bool)
     (c : cache) (r : tpl) (args : list arg) (rs : list str),
-  wf_tpl r = true -> ok_adj r = true -> first_hole_named r = true -> has_hole r = true -> cache_ok c ->
+  wf_tpl r = true -> first_hole_named r = true -> has_hole r = true -> cache_ok src_scan_skip c ->
   length (holes r) <= length args ->
   renders arg apply_spec (named_specs (holes r) (length args)) args rs ->
   Forall (fun x => has_sep x = false) rs ->
-  r_named (snd (process arg apply_spec is_string c (print r) args))
+  r_named (snd (process arg apply_spec is_string src_scan_skip c (print r) args))
   = Some (combine (named_keys (holes r) (length args)) (map (sanitize_if (has_string arg is_string args)) rs))
   /\ length rs = length args
   /\ length (named_keys (holes r) (length args)) = length args.
-Proof. exact pairs_clause. Qed.
+Proof. exact pairs_clause_src. Qed.
 Print Assumptions C19_pairs.
 
-(* D12: a value holding \x01\x02\x03 is cut there and every later value shifts *)
-Theorem C19_sep_refuted :
+(* D12: a value holding \x01\x02\x03 is cut there and every later value shifts (either scanner) *)
+Theorem C19_sep_refuted : forall skip : bool,
   wf_tpl d12_tpl = true /\ ok_adj d12_tpl = true /\ first_hole_named d12_tpl = true /\
   renders N d12_oracle (named_specs (holes d12_tpl) 3) [0; 1; 2]%N d12_values /\
   existsb has_sep d12_values = true /\
-  r_named (snd (process N d12_oracle no_strings [] (print d12_tpl) [0; 1; 2]%N))
+  r_named (snd (process N d12_oracle no_strings skip [] (print d12_tpl) [0; 1; 2]%N))
   = Some [(B "x", B "1"); (B "y", B "s"); (B "z", B "t")] /\
-  r_named (snd (process N d12_oracle no_strings [] (print d12_tpl) [0; 1; 2]%N))
+  r_named (snd (process N d12_oracle no_strings skip [] (print d12_tpl) [0; 1; 2]%N))
   <> Some (combine (named_keys (holes d12_tpl) 3) d12_values) /\
-  r_text (snd (process N d12_oracle no_strings [] (print d12_tpl) [0; 1; 2]%N))
+  r_text (snd (process N d12_oracle no_strings skip [] (print d12_tpl) [0; 1; 2]%N))
   = Some ([97; 32; 49; 32; 98; 32; 115; 1; 2; 3; 116; 32; 99; 32; 50; 46; 53]%N).
 Proof. exact sep_refuted. Qed.
 Print Assumptions C19_sep_refuted.
@@ -95,17 +122,17 @@ Print Assumptions C19_sep_refuted.
 (* The per-template cache is transparent: what a statement produces does not depend on which
    statements (templates) were processed before it, in which order. *)
 Theorem C19_cache_transparent : forall (arg : Type) (apply_spec : str -> arg -> option str) (is_string : arg -> bool)
-    (h1 h2 : list (str * list arg)) (t : str) (args : list arg),
-  snd (process arg apply_spec is_string (cache_after arg apply_spec is_string [] h1) t args)
-  = snd (process arg apply_spec is_string (cache_after arg apply_spec is_string [] h2) t args).
+    (skip : bool) (h1 h2 : list (str * list arg)) (t : str) (args : list arg),
+  snd (process arg apply_spec is_string skip (cache_after arg apply_spec is_string skip [] h1) t args)
+  = snd (process arg apply_spec is_string skip (cache_after arg apply_spec is_string skip [] h2) t args).
 Proof. exact cache_transparent. Qed.
 Print Assumptions C19_cache_transparent.
 
 Theorem C19_cache_batch : forall (arg : Type) (apply_spec : str -> arg -> option str) (is_string : arg -> bool)
-    (l : list (str * list arg)) (c : cache),
-  cache_ok c ->
-  process_all arg apply_spec is_string c l
-  = map (fun ta => snd (process arg apply_spec is_string [] (fst ta) (snd ta))) l.
+    (skip : bool) (l : list (str * list arg)) (c : cache),
+  cache_ok skip c ->
+  process_all arg apply_spec is_string skip c l
+  = map (fun ta => snd (process arg apply_spec is_string skip [] (fst ta) (snd ta))) l.
 Proof. exact process_all_indep. Qed.
 Print Assumptions C19_cache_batch.
 
@@ -127,45 +154,74 @@ Theorem C19_contains_refuted :
 Proof. exact contains_refuted. Qed.
 Print Assumptions C19_contains_refuted.
 
-(* The JSON sink line: '{', the seven fixed members in their order (message = the original
-   template with every newline replaced by a space), then one member per pair, then "}\n" *)
-Theorem C19_json_shape : forall (h : hdr) (t : str) (named : option (list (str * str))),
-  json_line h t named = LB :: join [COMMA] (map mtext (members_of h t named)) ++ [RB; NL]
-  /\ members_of h t named
+(* The JSON sink line (either variant of the sink): '{', the seven fixed members in their order
+   (message = the original template with every newline replaced by a space), then one member per
+   pair the sink was handed (key and value after esc_if: unchanged for esc = false, every newline
+   replaced by the two bytes backslash n for esc = true, nothing else touched), then "}\n" *)
+Theorem C19_json_shape : forall (esc : bool) (h : hdr) (t : str) (named : option (list (str * str))),
+  json_sink_line esc h t named = LB :: join [COMMA] (map mtext (sink_members_of esc h t named)) ++ [RB; NL]
+  /\ sink_members_of esc h t named
      = [ (k_timestamp, h_ts h); (k_file_name, h_file h); (k_line, h_line h); (k_thread_id, h_tid h);
-         (k_logger, h_logger h); (k_log_level, h_level h); (k_message, no_newlines t) ] ++ opt_pairs named
+         (k_logger, h_logger h); (k_log_level, h_level h); (k_message, no_newlines t) ]
+       ++ map (fun kv => (esc_if esc (fst kv), esc_if esc (snd kv))) (opt_pairs named)
   /\ length (no_newlines t) = length t /\ no_nl (no_newlines t) = true
-  /\ (forall i, nth i (no_newlines t) 0%N = if N.eqb (nth i t 0%N) NL then SP else nth i t 0%N).
-Proof. exact (fun h t named => conj (json_line_shape h t named) (conj eq_refl (no_newlines_spec t))). Qed.
+  /\ (forall i, nth i (no_newlines t) 0%N = if N.eqb (nth i t 0%N) NL then SP else nth i t 0%N)
+  /\ (forall s, esc_if false s = s)
+  /\ (forall s, esc_if true s = flat_map (fun c => if N.eqb c NL then [BSL; 110%N] else [c]) s)
+  /\ (forall s, no_nl s = true -> esc_if true s = s).
+Proof.
+  exact (fun esc h t named => conj (json_sink_line_shape esc h t named) (conj eq_refl
+          (conj (proj1 (no_newlines_spec t)) (conj (proj1 (proj2 (no_newlines_spec t))) (conj (proj2 (proj2 (no_newlines_spec t)))
+          (conj (fun s => eq_refl) (conj (fun s => eq_refl) esc_nl_id))))))).
+Qed.
 Print Assumptions C19_json_shape.
 
-(* exactly one '\n', the last byte, when no other field, key or value holds one *)
+(* exactly one '\n', the last byte — for EVERY template and EVERY list of keys and values (the other
+   fields come from std::to_string, the file name, the logger name and the level description) *)
 Theorem C19_json_one_line : forall (h : hdr) (t : str) (named : option (list (str * str))),
-  hdr_ok no_nl h = true -> pairs_ok no_nl (opt_pairs named) = true ->
-  exists body, json_line h t named = body ++ [NL] /\ no_nl body = true.
-Proof. exact json_one_line. Qed.
+  hdr_ok no_nl h = true ->
+  exists body, json_sink_line src_json_esc h t named = body ++ [NL] /\ no_nl body = true.
+Proof. exact json_one_line_src. Qed.
 Print Assumptions C19_json_one_line.
 
-(* a newline inside a value is written raw: two lines for one statement *)
+(* the sink as pinned (esc = false) had that only when no key or value holds a newline ... *)
+Theorem C19_json_one_line_pinned_partial : forall (h : hdr) (t : str) (named : option (list (str * str))),
+  hdr_ok no_nl h = true -> pairs_ok no_nl (opt_pairs named) = true ->
+  exists body, json_sink_line false h t named = body ++ [NL] /\ no_nl body = true.
+Proof. exact json_one_line_pinned. Qed.
+Print Assumptions C19_json_one_line_pinned_partial.
+
+(* ... D16 (the pinned sink): a newline inside a value is written raw, two lines for one statement *)
 Theorem C19_json_nl_refuted :
   hdr_ok no_nl ex_hdr = true /\
-  count_occ N.eq_dec (json_line ex_hdr (B "nl {x}") (Some [(B "x", [97; 10; 98]%N)])) NL = 2 /\
-  ~ (exists body, json_line ex_hdr (B "nl {x}") (Some [(B "x", [97; 10; 98]%N)]) = body ++ [NL]
+  count_occ N.eq_dec (json_sink_line false ex_hdr (B "nl {x}") (Some [(B "x", [97; 10; 98]%N)])) NL = 2 /\
+  ~ (exists body, json_sink_line false ex_hdr (B "nl {x}") (Some [(B "x", [97; 10; 98]%N)]) = body ++ [NL]
                   /\ no_nl body = true).
 Proof. exact json_nl_refuted. Qed.
 Print Assumptions C19_json_nl_refuted.
 
 (* when no byte of any field needs escaping, the line is recognised as the JSON object with
-   exactly these members in this order *)
-Theorem C19_json_parses : forall (h : hdr) (t : str) (named : option (list (str * str))),
+   exactly these members in this order (either variant of the sink) *)
+Theorem C19_json_parses : forall (esc : bool) (h : hdr) (t : str) (named : option (list (str * str))),
   hdr_ok plain_str h = true -> plain_str (no_newlines t) = true ->
   pairs_ok plain_str (opt_pairs named) = true ->
-  json_parse_line (json_line h t named) = Some (members_of h t named).
-Proof. exact json_parses. Qed.
+  json_parse_line (json_sink_line esc h t named) = Some (members_of h t named).
+Proof. exact json_sink_parses. Qed.
 Print Assumptions C19_json_parses.
+
+(* with newlines inside keys / values (and otherwise no byte that needs escaping) the line is
+   recognised as the JSON object holding the ORIGINAL keys and values: the escape backslash n decodes
+   to the newline *)
+Theorem C19_json_parses_nl : forall (h : hdr) (t : str) (named : option (list (str * str))),
+  hdr_ok plain_str h = true -> plain_str (no_newlines t) = true ->
+  pairs_ok (forallb (fun c => plain c || N.eqb c NL)) (opt_pairs named) = true ->
+  json_parse_line (json_sink_line src_json_esc h t named) = Some (members_of h t named).
+Proof. exact json_parses_nl_src. Qed.
+Print Assumptions C19_json_parses_nl.
 
 (* non-vacuity: the premises above are satisfiable together (examples closed by computation) *)
 Theorem C19_nonvacuous :
+  (wf_tpl ex_tpl_adj = true /\ ok_adj ex_tpl_adj = false /\ first_hole_named ex_tpl_adj = true /\ has_hole ex_tpl_adj = true) /\
   (wf_tpl ex_tpl = true /\ ok_adj ex_tpl = true /\ first_hole_named ex_tpl = true /\ has_hole ex_tpl = true) /\
   (length (holes ex_tpl) <= 5 /\
    renders N dec_oracle (named_specs (holes ex_tpl) 5) [10; 20; 30; 40; 50]%N
@@ -173,11 +229,13 @@ Theorem C19_nonvacuous :
    Forall (fun x => has_sep x = false) [B "10"; B "20"; B "30"; B "40"; B "50"]) /\
   (hdr_ok plain_str ex_hdr = true /\ hdr_ok no_nl ex_hdr = true /\
    pairs_ok plain_str [(B "x", B "10")] = true /\ pairs_ok no_nl [(B "x", B "10")] = true) /\
-  cache_ok [].
+  cache_ok src_scan_skip [] /\
+  pairs_ok (forallb (fun c => plain c || N.eqb c NL)) [(B "k", [97; 10; 98]%N)] = true.
 Proof.
-  exact (conj (conj (proj1 ex_tpl_hyps) (conj (proj1 (proj2 ex_tpl_hyps)) (conj (proj1 (proj2 (proj2 ex_tpl_hyps))) (proj1 (proj2 (proj2 (proj2 ex_tpl_hyps)))))))
+  exact (conj (conj (proj1 ex_tpl_adj_hyps) (conj (proj1 (proj2 ex_tpl_adj_hyps)) (conj (proj1 (proj2 (proj2 ex_tpl_adj_hyps))) (proj1 (proj2 (proj2 (proj2 ex_tpl_adj_hyps)))))))
+        (conj (conj (proj1 ex_tpl_hyps) (conj (proj1 (proj2 ex_tpl_hyps)) (conj (proj1 (proj2 (proj2 ex_tpl_hyps))) (proj1 (proj2 (proj2 (proj2 ex_tpl_hyps)))))))
         (conj (conj (proj1 ex_pairs_hyps) (conj (proj1 (proj2 ex_pairs_hyps)) (proj1 (proj2 (proj2 ex_pairs_hyps)))))
         (conj (conj (proj1 ex_json_hyps) (conj (proj1 (proj2 ex_json_hyps)) (conj (proj1 (proj2 (proj2 (proj2 ex_json_hyps)))) (proj1 (proj2 (proj2 (proj2 (proj2 ex_json_hyps))))))))
-              cache_ok_nil))).
+              (conj cache_ok_nil_src eq_refl))))).
 Qed.
 Print Assumptions C19_nonvacuous.
